@@ -120,9 +120,123 @@ def _block(stmts):
                 out.append(new)
                 i = j
                 continue
+        # C13: a result variable that is only returned: `x = E; return x` is `return E`; an if/elif/else chain whose every
+        # branch ends by assigning x (or leaves) followed by `return x` returns from the branches
+        if isinstance(nxt, ast.Return) and isinstance(nxt.value, ast.Name):
+            rx = nxt.value.id
+            if x == rx and isinstance(st, ast.Assign):
+                new = ast.copy_location(ast.Return(value=st.value), st)
+                r = _stmt(new)
+                stmts[i:i + 2] = r if isinstance(r, list) else [r]
+                continue
+            if isinstance(st, ast.If) and st.orelse and _sinkable(st, rx):
+                _sink(st, rx)
+                r = _stmt(st)
+                stmts[i:i + 2] = r if isinstance(r, list) else [r]
+                continue
+        # C14: two returns that differ in one sub-expression: `if c: return f(A)` / `return f(B)` is
+        # `t = A if c else B` / `return f(t)` (the inverse of lifting a conditional argument out of a call)
+        if isinstance(st, ast.If) and len(st.body) == 1 and isinstance(st.body[0], ast.Return) and st.body[0].value is not None \
+                and not st.orelse and isinstance(nxt, ast.Return) and nxt.value is not None:
+            d = _one_difference(st.body[0].value, nxt.value)
+            if d is not None:
+                a, b, setter = d
+                nm = '_sel%d' % st.lineno
+                sel = ast.Assign(targets=[ast.Name(id=nm, ctx=ast.Store())], value=ast.IfExp(test=st.test, body=a, orelse=b))
+                ast.copy_location(sel, st)
+                setter(ast.copy_location(ast.Name(id=nm, ctx=ast.Load()), b))
+                ast.fix_missing_locations(sel)
+                stmts[i:i + 2] = [sel, nxt]
+                out.append(sel)
+                out.append(nxt)
+                i += 2
+                continue
+        # ... also when the last return names its differing part first: `if c: return f(A)` / `t = B` / `return f(t)`
+        nn = stmts[i + 2] if i + 2 < len(stmts) else None
+        if isinstance(st, ast.If) and len(st.body) == 1 and isinstance(st.body[0], ast.Return) and st.body[0].value is not None \
+                and not st.orelse and isinstance(nxt, ast.Assign) and _single_name_assign(nxt) and isinstance(nn, ast.Return) and nn.value is not None:
+            t = _single_name_assign(nxt)
+            uses = [n for n in ast.walk(nn.value) if isinstance(n, ast.Name) and n.id == t]
+            if len(uses) == 1 and t not in _names_loaded(nxt.value) and t not in _names_loaded(st):
+                e2 = _subst(copy.deepcopy(nn.value), t, nxt.value)
+                d = _one_difference(st.body[0].value, e2)
+                if d is not None and ast.dump(d[1]) == ast.dump(nxt.value):
+                    sel = ast.Assign(targets=nxt.targets, value=ast.IfExp(test=st.test, body=d[0], orelse=nxt.value))
+                    ast.copy_location(sel, st)
+                    ast.fix_missing_locations(sel)
+                    stmts[i:i + 3] = [sel, nn]
+                    out.append(sel)
+                    out.append(nn)
+                    i += 2
+                    continue
         out.append(st)
         i += 1
     return out
+
+
+def _simple_load(e):
+    return isinstance(e, (ast.Name, ast.Constant)) or (isinstance(e, ast.Attribute) and _simple_load(e.value))
+
+
+def _one_difference(e1, e2):
+    """(A, B, setter) when e1 and e2 are the same expression but for one proper sub-expression (A in e1, B in e2) that is
+    evaluated before anything else that could have an effect; setter(x) puts x in B's place in e2.  None otherwise."""
+    if ast.dump(e1) == ast.dump(e2) or type(e1) is not type(e2) or not isinstance(e1, ast.Call):
+        return None
+    found = []
+
+    def walk(n1, n2, put, first):
+        if ast.dump(n1) == ast.dump(n2):
+            return True
+        if type(n1) is not type(n2) or not first:
+            found.append(None)
+            return False
+        if isinstance(n1, ast.Call) and ast.dump(n1.func) == ast.dump(n2.func) and _simple_load(n1.func) and len(n1.args) == len(n2.args) \
+                and [k.arg for k in n1.keywords] == [k.arg for k in n2.keywords]:
+            subs = [(a1, a2, (lambda x, j=j: n2.args.__setitem__(j, x))) for j, (a1, a2) in enumerate(zip(n1.args, n2.args))] + \
+                   [(k1.value, k2.value, (lambda x, k2=k2: setattr(k2, 'value', x))) for k1, k2 in zip(n1.keywords, n2.keywords)]
+            fst = True
+            for a1, a2, p in subs:
+                if ast.dump(a1) != ast.dump(a2):
+                    if isinstance(a1, ast.Call) and isinstance(a2, ast.Call) and ast.dump(a1.func) == ast.dump(a2.func):
+                        walk(a1, a2, p, fst)
+                    else:
+                        found.append((a1, a2, p) if fst else None)
+                fst = fst and _simple_load(a1)
+            return False
+        found.append(None)
+        return False
+    walk(e1, e2, None, True)
+    if len(found) == 1 and found[0] is not None:
+        return found[0]
+    return None
+
+
+def _sinkable(st, x):
+    def ends_ok(block):
+        if not block:
+            return False
+        last = block[-1]
+        if _single_name_assign(last) == x and isinstance(last, ast.Assign):
+            return True
+        if isinstance(last, (ast.Return, ast.Raise)):
+            return True
+        if isinstance(last, ast.If) and last.orelse:
+            return ends_ok(last.body) and ends_ok(last.orelse)
+        return False
+    return ends_ok(st.body) and ends_ok(st.orelse)
+
+
+def _sink(st, x):
+    def go(block):
+        last = block[-1]
+        if isinstance(last, ast.Assign) and _single_name_assign(last) == x:
+            block[-1] = ast.copy_location(ast.Return(value=last.value), last)
+        elif isinstance(last, ast.If):
+            go(last.body)
+            go(last.orelse)
+    go(st.body)
+    go(st.orelse)
 
 
 def _pure(e):
@@ -208,6 +322,14 @@ def _loop_to_comp(x, loop):
     return ast.ListComp(elt=elt, generators=[ast.comprehension(target=loop.target, iter=loop.iter, ifs=[], is_async=0)])
 
 
+def _is_len(e):
+    return isinstance(e, ast.Call) and isinstance(e.func, ast.Name) and e.func.id == 'len' and len(e.args) == 1 and not e.keywords
+
+
+def _is_int(e):
+    return isinstance(e, ast.Constant) and type(e.value) is int
+
+
 def _stmt(st):
     # recurse into compound statements first
     for fld in ('body', 'orelse', 'finalbody'):
@@ -254,6 +376,13 @@ def _stmt(st):
         elif isinstance(t, ast.Compare) and len(t.ops) == 1 and isinstance(t.ops[0], (ast.NotEq, ast.IsNot, ast.NotIn)):
             op = {ast.NotEq: ast.Eq, ast.IsNot: ast.Is, ast.NotIn: ast.In}[type(t.ops[0])]()
             flipped = ast.copy_location(ast.Compare(left=t.left, ops=[op], comparators=t.comparators), t)
+        elif isinstance(t, ast.Compare) and len(t.ops) == 1 and isinstance(t.ops[0], (ast.Lt, ast.LtE)) and _is_len(t.left) and _is_int(t.comparators[0]):
+            # a length is an integer: `len(x) <= k` is exactly `not len(x) > k` (the positive spelling is the larger-than one)
+            op = {ast.Lt: ast.GtE, ast.LtE: ast.Gt}[type(t.ops[0])]()
+            flipped = ast.copy_location(ast.Compare(left=t.left, ops=[op], comparators=t.comparators), t)
+        elif isinstance(t, ast.Compare) and len(t.ops) == 1 and isinstance(t.ops[0], (ast.Gt, ast.GtE)) and _is_len(t.comparators[0]) and _is_int(t.left):
+            op = {ast.Gt: ast.GtE, ast.GtE: ast.Gt}[type(t.ops[0])]()
+            flipped = ast.copy_location(ast.Compare(left=t.comparators[0], ops=[op], comparators=[t.left]), t)
         elif isinstance(t, ast.BoolOp) and isinstance(t.op, ast.Or) and all(
                 (isinstance(v, ast.UnaryOp) and isinstance(v.op, ast.Not)) or
                 (isinstance(v, ast.Compare) and len(v.ops) == 1 and isinstance(v.ops[0], (ast.NotEq, ast.IsNot, ast.NotIn))) for v in t.values):
@@ -602,7 +731,7 @@ def _drop_unused_nested_defs(fn, names):
             if isinstance(st, ast.FunctionDef) and st.name in names and st.name not in used:
                 continue
             for fld in ('body', 'orelse', 'finalbody'):
-                if hasattr(st, fld) and isinstance(getattr(st, fld), list) and not isinstance(st, (ast.FunctionDef, ast.ClassDef)):
+                if hasattr(st, fld) and isinstance(getattr(st, fld), list) and getattr(st, fld) and not isinstance(st, (ast.FunctionDef, ast.ClassDef)):
                     setattr(st, fld, walk(getattr(st, fld)) or [ast.copy_location(ast.Pass(), st)])
             if isinstance(st, ast.Try):
                 for h in st.handlers:
@@ -976,7 +1105,7 @@ def _propagate_aliases(fn, module_names):
             if id(st) in drop:
                 continue
             for fld in ('body', 'orelse', 'finalbody'):
-                if hasattr(st, fld) and isinstance(getattr(st, fld), list) and not isinstance(st, (ast.FunctionDef, ast.ClassDef)):
+                if hasattr(st, fld) and isinstance(getattr(st, fld), list) and getattr(st, fld) and not isinstance(st, (ast.FunctionDef, ast.ClassDef)):
                     setattr(st, fld, walk(getattr(st, fld)) or [ast.copy_location(ast.Pass(), st)])
             if isinstance(st, ast.Try):
                 for h in st.handlers:
